@@ -13,6 +13,7 @@
 # limitations under the License.
 """Symbolic dict."""
 
+import copy
 import typing
 from typing import Any, Callable, Iterable, Iterator, List, Optional, Sequence, Set, Tuple, Union
 
@@ -598,7 +599,9 @@ class Dict(dict, base.Symbolic, pg_typing.CustomTyping):
     allow_partial = base.accepts_partial(self)
     if field and pg_typing.MISSING_VALUE == value:
       # NOTE(daiyip): default value is already in transformed form.
-      value = field.default_value
+      # It is copied, as `Schema.apply` does: the applied value is bound into
+      # this tree and must not alias the default held by the value spec.
+      value = copy.deepcopy(field.default_value)
     else:
       value = base.from_json(
           value,
